@@ -105,6 +105,12 @@ class Tr:
             out = f"(.seq {p} {out})"
         return out
 
+    def assign(self, name: str, value: ast.AST) -> str:
+        """`x = a if c else b` is the statement `if c: x = a else: x = b` (same meaning, other shape)"""
+        if isinstance(value, ast.IfExp):
+            return f"(.ite {self.expr(value.test)} {self.assign(name, value.body)} {self.assign(name, value.orelse)})"
+        return f"(.assign {_q(name)} {self.expr(value)})"
+
     def stmt(self, s: ast.stmt) -> str:
         if isinstance(s, ast.Pass):
             return "(.skip)"
@@ -120,7 +126,7 @@ class Tr:
             if isinstance(t, ast.Name):
                 if t.id in self.accs:
                     raise Opaque(f"accumulator {t.id} re-bound inside the loop")
-                return f"(.assign {_q(t.id)} {self.expr(s.value)})"
+                return self.assign(t.id, s.value)
             if isinstance(t, ast.Subscript) and isinstance(t.value, ast.Name) and t.value.id in self.accs:
                 return f"(.emit {_q(t.value.id)} {self.expr(t.slice)} {self.expr(s.value)})"
             raise Opaque(f"store into {ast.unparse(t)[:40]}")
@@ -369,6 +375,41 @@ def rows() -> List[Tuple[str, str, str, int, str]]:
     return out
 
 
+def ordered_result_callers(rs=None) -> List[Tuple[str, List[Tuple[str, str, str]]]]:
+    """For every translated loop whose value is used in ORDER (returned / concatenated into the function's result), and whose function
+    name is defined exactly once in the tree: every call site of that function (by name, tree-wide) with the way the call's value is
+    consumed there - `member` (operand of `in` / `not in`), `for` (iterated), `len`, `set`, `sorted`, or `other:<node>`.
+    (An int-valued set iterates in an order that depends on the INSERTION order of colliding values; when the insertions come from a
+    string-hashed set - `listen_on_ports` - that order depends on PYTHONHASHSEED, so the result may only be consumed order-free.)"""
+    T = N.Tree()
+    out = []
+    for f, scope, detail, occ, lean in (rs if rs is not None else rows()):
+        if ", .ordered)" not in lean:
+            continue
+        fname = scope.split(".")[-1]
+        if len(T.func_defs.get(fname, [])) != 1:
+            continue
+        calls = []
+        for fi in T.files:
+            par = T.parents_of(fi)
+            for qual, node in N._scopes(fi.tree):
+                for n in N._own_nodes(node):
+                    if isinstance(n, ast.Call) and isinstance(n.func, (ast.Attribute, ast.Name)) and \
+                            (n.func.attr if isinstance(n.func, ast.Attribute) else n.func.id) == fname:
+                        p = par.get(id(n))
+                        if isinstance(p, ast.Compare) and n in p.comparators and all(isinstance(o, (ast.In, ast.NotIn)) for o in p.ops):
+                            how = "member"
+                        elif isinstance(p, (ast.For, ast.comprehension)) and p.iter is n:
+                            how = "for"
+                        elif isinstance(p, ast.Call) and isinstance(p.func, ast.Name) and p.func.id in ("len", "set", "frozenset", "sorted") and n in p.args:
+                            how = p.func.id
+                        else:
+                            how = "other:" + type(p).__name__
+                        calls.append((fi.rel, qual, how))
+        out.append((fname, sorted(calls)))
+    return out
+
+
 def emit() -> str:
     rs = rows()
     L = ["import PrimaiteModel.Model.NoninterfLoop",
@@ -378,6 +419,9 @@ def emit() -> str:
          f"/-- {len(rs)} set iterations whose consumer is a loop / comprehension / list(): (file, scope, detail, occurrence, translation) -/",
          "def loops : List (String × String × String × Nat × Translation) := [\n  " + ",\n  ".join(
              f"({_q(f)}, {_q(s)}, {_q(d)}, {o}, {t})" for f, s, d, o, t in rs) + "]",
+         "/-- functions whose result carries the iteration order of a set: every call site and how the result is consumed there -/",
+         "def orderedResultCallers : List (String × List (String × String × String)) := [\n  " + ",\n  ".join(
+             f"({_q(fn)}, [" + ", ".join(f"({_q(a)}, {_q(b)}, {_q(c)})" for a, b, c in cs) + "])" for fn, cs in ordered_result_callers(rs)) + "]",
          "end Primaite.Gen.NondetLoops"]
     return "\n".join(L) + "\n"
 
@@ -385,3 +429,4 @@ def emit() -> str:
 if __name__ == "__main__":
     for r in rows():
         print(r)
+    print(ordered_result_callers())
